@@ -133,6 +133,26 @@ def rewrite_loop(ctx, rule):
     ctx.check(len(sp) == 1 and len(fin) == 1 and b.reaches(sp[0][0], fin[0][0]), rule, fn, "strip-before-finish", "prefixes are stripped before the map is finished")
 
 
+def contents_predicates(ctx, rule):
+    """The 'first-seen wins' guards rely on has_source_contents(id) <=> contents are present
+    (not merely that a slot exists)."""
+    h = ctx.body(B + "has_source_contents")
+    calls = [q.shape(h.expr_of_call(t)) for bi, t in h.calls()]
+    ctx.check(calls == ["SourceMapBuilder::get_source_contents(arg1,arg2)", "Option::is_some(SourceMapBuilder::get_source_contents(arg1,arg2))"], rule, h.path, "has=is_some(get)",
+              "has_source_contents(id) is exactly get_source_contents(id).is_some()", detail=str(calls))
+    g = ctx.body(B + "get_source_contents")
+    calls = [q.shape(g.expr_of_call(t)) for bi, t in g.calls()]
+    ok = "slice::get(arg1.source_contents,cast<usize>(arg2))" in calls and any(c.startswith("Option::and_then(slice::get(arg1.source_contents,cast<usize>(arg2)),closure:") for c in calls)
+    ctx.check(ok, rule, g.path, "get:flatten-option", "get_source_contents(id) is Some only when the slot exists *and* holds contents (Option<Option<_>> flattened with and_then)", detail=str(calls))
+    cl = ctx.facts.body(B + "get_source_contents::{closure#0}", required=False)
+    inner = [q.shape(cl.expr_of_call(t)) for bi, t in cl.calls()] if cl else []
+    ctx.check(any(c.startswith("Option::map(Option::as_ref(arg2),closure:") for c in inner), rule, g.path, "get:inner-as_ref", "an empty slot (None) reads as no contents", detail=str(inner))
+    sg = ctx.body("types::SourceMap::get_source_contents")
+    calls = [q.shape(sg.expr_of_call(t)) for bi, t in sg.calls()]
+    ok = any(c == "Option::and_then(slice::get(arg1.sources_content,cast<usize>(arg2)),fn:Option::as_ref)" for c in calls)
+    ctx.check(ok, rule, sg.path, "map:get_source_contents", "SourceMap::get_source_contents(id) likewise flattens a missing slot and an empty slot to None", detail=str(calls)[:300])
+
+
 def strip_prefixes(ctx, rule):
     b = ctx.body(B + "strip_prefixes")
     fn = b.path
@@ -166,6 +186,13 @@ def hermes_permutation(ctx, rule):
     shapes = [sh for l in fm for sh, site, _ in q.def_shapes(b, l, roles)]
     ok = any(q.wild("Iterator::collect(Iterator::map(slice::iter(mapping),closure:rewrite::{closure#0}))", s) for s in shapes)
     ctx.check(ok, rule, fn, "function_maps:by-mapping", "function maps are rebuilt by mapping over the old-id mapping", detail=str(shapes)[:300])
+    # the permutation must not be skipped when the lengths are equal (the common case: one entry
+    # per source): the only guard allowed around it is mapping.len() <= function_maps.len()
+    sites = [site for l in fm for sh, site, _ in q.def_shapes(b, l, roles) if "closure:rewrite::{closure#0}" in sh]
+    for site in sites:
+        conds = [f for f in q.facts_at(b, site[0], {**roles, **{l: "fmaps" for l in fm}}) if f.op in ("Lt", "Le", "Eq", "Ne", "true", "false")]
+        bad = [f for f in conds if f.key() not in (("Le", "Vec::len(mapping)", "Vec::len(fmaps)"),)]
+        ctx.check(not bad, rule, fn, "remap:guard", "the remap is guarded at most by mapping.len() <= function_maps.len() (it also runs when the lengths are equal)", ctx.site(b, *site), detail=str(bad))
     c0 = ctx.facts.body(HREW + "::{closure#0}", required=False)
     rets = []
     if c0 is not None:
